@@ -2,3 +2,5 @@
 import AJ.Props.C19
 import AJ.Props.C06Doc
 import AJ.Props.C05Deser
+import AJ.Props.C05MpDeser
+import AJ.Props.C06Mem
